@@ -515,10 +515,10 @@ class Lemmas:
         ok, bad = sub_check(self.prog, "c10")
         if not ok:
             return False, "C10 exposure transducer fails: %s" % bad
-        ok, d = self._scan_types()
+        ok, bad = sub_check(self.prog, "c04", rules={"validate-side"})
         if not ok:
-            return False, d
-        return True, "lookups and scan use MI/M2 type constants; parser admits each at most once; iterator exposure (C10) and tiling (L2) hold"
+            return False, "C04 validate-side (the scan stops at an attribute of the type that was looked up, per algorithm) fails: %s" % bad
+        return True, "the scan stops at an attribute of the looked-up type (C04 validate-side, E2 return states); parser admits each at most once; iterator exposure (C10) and tiling (L2) hold"
 
     def _scan_types(self):
         """the scan compares the same type constants the lookups used"""
